@@ -275,7 +275,10 @@ func Project(d []float64, e latgeo.Emb) (stream [][]int, offgrid string, err err
 			if latm < 0 {
 				latm += 180000
 			}
-			rot := rnd(latm, "rot(mdeg)", i) % 180000
+			rot := 0
+			if math.Abs(s.Rx-s.Ry) > 1e-9*math.Abs(s.Rx) { // the rotation of a circle is immaterial
+				rot = rnd(latm, "rot(mdeg)", i) % 180000
+			}
 			flRaw := -1
 			if f := raw[4]; f == 0 || f == 1 || f == 2 || f == 3 {
 				flRaw = int(f)
